@@ -56,7 +56,16 @@ func c05Readback(c *Ctx, s *State, a *Abs, tags []string, trace []Step) []Violat
 		bad(o, "reset", st, "reset --mixed to the current commit failed%s", outputTail(r))
 	} else {
 		pa := post.Abs()
-		if pa.IndexErr != nil {
+		sorted := true
+		for i := 1; i < len(pa.Index); i++ {
+			if pa.Index[i-1].Path >= pa.Index[i].Path {
+				sorted = false
+				bad("index-file-canonical", "reset", st, "after reset --mixed the staging area file is not in strictly ascending path order: %q before %q", pa.Index[i-1].Path, pa.Index[i].Path)
+				break
+			}
+		}
+		if !sorted {
+		} else if pa.IndexErr != nil {
 			bad("reset-mixed-readback", "reset", st, "index unreadable after reset: %v", pa.IndexErr)
 		} else if d := diffStrMaps("staging area after reset --mixed", want, pa.IndexMap(), nil); d != "" || len(pa.Index) != len(want) {
 			bad("reset-mixed-readback", "reset", st, "%s (entries %d, expected %d)", d, len(pa.Index), len(want))
@@ -134,11 +143,6 @@ func c05Trans(c *Ctx, pre *Node, st Step, res *Result, post *State) ([]Violation
 			tags = append(tags, "snapshot-empty")
 		}
 	}
-	var trace []Step
-	trace = append(trace, c.X.fullTrace(pre, &st)...)
-	if pre.Parent == nil && pre.Seed != "" && len(trace) == 1 {
-		trace = nil
-	}
 	vs := c05Readback(c, post, qa, tags, traceFor(c, pre, st))
 	return vs, len(vs) == 0
 }
@@ -146,21 +150,7 @@ func c05Trans(c *Ctx, pre *Node, st Step, res *Result, post *State) ([]Violation
 // traceFor returns the complete trace (seed + path + step) for violations found by
 // probes behind a transition; for input-enumeration cases the case runner fills it in.
 func traceFor(c *Ctx, pre *Node, st Step) []Step {
-	root := pre
-	for root.Parent != nil {
-		root = root.Parent
-	}
-	var t []Step
-	for _, sd := range c.X.Spec.Seeds {
-		if sd.Name == root.Seed {
-			t = append(t, sd.Steps...)
-		}
-	}
-	if len(t) == 0 && root.Seed == "S0" {
-		t = append(t, seedS0()...)
-	}
-	t = append(t, pre.Trace()...)
-	return append(t, st)
+	return c.X.fullTrace(pre, &st)
 }
 
 // findContent searches c<n> such that pred(id bytes) holds; deterministic.
